@@ -55,6 +55,30 @@ def run(ctx, idx):
     for kind, line, msg, fk, node in r.findings:
         if kind == "dtype-arg":
             ctx.violate("C18.a", "%s.execute::dtype-string" % d.key, d.module.rel, line, msg)
+    # the reader's checks by type *name* and the cleaner's reading of that name must agree: when DataTypeParameter.clean accepts
+    # other spellings than the table's keys (blanks dropped, another case), a test of the raw argument text against the declared
+    # names misses them - the type is applied, its positive / fuzzy check is not
+    dtc = idx.cls("mpilot.params", "DataTypeParameter")
+    dcl = dtc.methods.get("clean") if dtc is not None else None
+    if dcl is None:
+        raise AnalysisError("C18.a: DataTypeParameter.clean vanished")
+    vname = dcl.node.args.args[1].arg
+    rebinds = [st for st in own_nodes(dcl.node) if isinstance(st, ast.Assign) and any(isinstance(t_, ast.Name) and t_.id == vname for t_ in st.targets)
+               and not (isinstance(st.value, ast.Call) and isinstance(st.value.func, ast.Attribute) and st.value.func.attr == "clean")]
+    keyed_other = [x for x in own_nodes(dcl.node) if isinstance(x, ast.Subscript) and K.src(x.value).endswith(".valid_types") and not (isinstance(x.slice, ast.Name))]
+    keyed_other += [x for x in own_nodes(dcl.node) if isinstance(x, ast.Call) and isinstance(x.func, ast.Attribute) and x.func.attr == "get" and K.src(x.func.value).endswith(".valid_types") and x.args and not isinstance(x.args[0], ast.Name)]
+    transforms = bool(rebinds or keyed_other)
+    raw_tests = []
+    for t_ in ast.walk(d.execute.node):
+        if isinstance(t_, ast.Compare) and len(t_.ops) == 1 and isinstance(t_.ops[0], (ast.Eq, ast.NotEq, ast.In, ast.NotIn)):
+            l_ = K.expand(d.execute, t_.left)
+            if isinstance(l_, ast.Call) and isinstance(l_.func, ast.Attribute) and l_.func.attr == "get_argument_value" and l_.args and isinstance(l_.args[0], ast.Constant) and l_.args[0].value == "DataType":
+                raw_tests.append(t_)
+    con_n = "%s.execute::type-name-as-the-cleaner-reads-it" % d.key
+    if transforms and raw_tests:
+        ctx.violate("C18.a", con_n, d.module.rel, raw_tests[0].lineno, "DataTypeParameter.clean accepts spellings that are not keys of the type table (`%s`), but `%s` compares the raw argument text with the declared names: for such a spelling the element type is applied and the positive / fuzzy check is skipped (negative data read as Positive Integer wraps to huge values)" % (K.src((rebinds or keyed_other)[0])[:60], K.src(raw_tests[0])[:70]))
+    else:
+        ctx.hold("C18.a", con_n, d.module.rel, d.execute.node.lineno, "the cleaner accepts the table's own keys only, or the reader's name tests go through the cleaner's reading", nontrivial=False)
     # the type checks (positive / fuzzy) must exist and be keyed on the raw name
     fi = d.execute
     cfg = K.cfg_of(idx, fi)
